@@ -162,6 +162,18 @@ def campaign(c, ctx, r, nprogs, mask, tier, want_stats=False, variants=("pred", 
     return progs, runs
 
 
+def worker_report(c, runs):
+    """reports a broken op-by-op correspondence between process.c / fossil.c and the worker model; returns coverage numbers"""
+    nops, nruns = 0, 0
+    for run_ in runs:
+        if run_.get("worker_ops"):
+            nruns += 1
+            nops += run_["worker_ops"]
+        if run_.get("worker_diff") and not any(v[0] == "worker-correspondence" for v in c.violations):
+            c.violation("worker-correspondence", run_["worker_diff"], found_input=False)
+    return dict(worker_model_runs=nruns, worker_model_states_compared=nops)
+
+
 def describe(run):
     th, ck, gp, ranks = run["cfg"]
     return dict(threads=th, checkpoint_interval=ck, gvt_period_us=gp, ranks=ranks, variant=run["prog"]["variant"], injected_delay=run.get("delay"), network_delays=run.get("net"),
@@ -195,7 +207,7 @@ def seq_per_lp(seq):
     return d
 
 
-def lp_campaign(c, ctx, r, nprogs, mask, gvt_slack=(0, 0, 1, 3), steps=400):
+def lp_campaign(c, ctx, r, nprogs, mask, gvt_slack=(0, 0, 1, 3), steps=400, worker=True):
     """LP-level driver (harness/drv_lp.c): one worker hosts every LP; the driver plays the network (holds messages back and
     returns them late) and announces legal GVT values.  Dense stragglers, anti-messages, rollbacks and fossil collections,
     deterministic and single-threaded.  Returns run records like campaign()."""
@@ -233,8 +245,26 @@ def lp_campaign(c, ctx, r, nprogs, mask, gvt_slack=(0, 0, 1, 3), steps=400):
         script.append("E")
         ck = r.choice([1, 1, 2, 3, 5, 0]) if not sparse else r.choice([1, 1, 1, 2])
         tf = os.path.join(ctx["sd"], "lptrace%d.txt" % k)
+        lsf = os.path.join(ctx["sd"], "lpstate%d.txt" % k)
         rc, so, se = V.run([exe, pf, str(ck)], inp="\n".join(script) + "\n", timeout=180,
-                           env={"VERIF_TRACE_FILE": tf, "VERIF_TRACE_MASK": str(mask), "VERIF_WATCHDOG": "120"})
+                           env={"VERIF_TRACE_FILE": tf, "VERIF_TRACE_MASK": str(mask), "VERIF_WATCHDOG": "120", "VERIF_LPSTATE": lsf})
+        # op-by-op correspondence with the worker model (coq/TW/Worker.v): digest of every LP (state, history, checkpoint log, bound)
+        # after every script line; fixed checkpoint intervals only (the autonomic interval depends on measured times)
+        wdiff, wops = None, 0
+        if worker and ck > 0 and rc == 0:
+            rm, om, em = V.run([ctx["mexe"], "worker", pf, str(ck)], inp="\n".join(script) + "\n", timeout=600)
+            A = open(lsf).read().split("\n") if os.path.exists(lsf) else []
+            B = om.split("\n")
+            wops = sum(1 for l in A if l.startswith("S "))
+            i = next((j for j in range(min(len(A), len(B))) if A[j] != B[j]), None)
+            if rm != 0 or i is not None or len(A) != len(B):
+                i = i if i is not None else min(len(A), len(B))
+                opn = max([int(A[j].split()[1]) for j in range(min(i + 1, len(A))) if A[j].startswith("S ")] or [0])
+                wdiff = dict(kind="correspondence", driver="drv_lp vs TW/Worker.v", after_script_line=opn,
+                             op=script[opn - 1] if 0 < opn <= len(script) else "init", impl=A[i] if i < len(A) else None,
+                             model=B[i] if i < len(B) else None, model_stderr=em[-300:], program=text, script=script[:opn], checkpoint_interval=ck)
+        if os.path.exists(lsf):
+            os.remove(lsf)
         res = S.SimResult()
         res.rc, res.out, res.err = rc, so, se
         res.final = [l for l in so.split("\n") if l.startswith("F ")]
@@ -246,5 +276,5 @@ def lp_campaign(c, ctx, r, nprogs, mask, gvt_slack=(0, 0, 1, 3), steps=400):
         if os.path.exists(tf):
             os.remove(tf)
         pr = dict(p=p, text=text, path=pf, variant="lp-level", tend=0, idx=1000 + k, seqfull=seqfull, seqstop=seqfull)
-        runs.append(dict(prog=pr, cfg=(1, ck, 0, 1), res=res, trace=tr, stats=None, delay=None, script=script))
+        runs.append(dict(prog=pr, cfg=(1, ck, 0, 1), res=res, trace=tr, stats=None, delay=None, script=script, worker_diff=wdiff, worker_ops=wops))
     return runs
